@@ -41,16 +41,16 @@ Value& REPLACEExpression::value(Context & ctx) const
     switch (a1.type().major())
     {
     case Type::NO_TYPE:
-      return val;
+      return handback(ctx, val);
     case Type::LITERAL:
       if (a1.isNull())
-        return val;
+        return handback(ctx, val);
       break;
     default:
       throw RuntimeError(EXC_RT_FUNC_ARG_TYPE_S, KEYWORDS[oper]);
     }
     if (val.isNull())
-      return val;
+      return handback(ctx, val);
     Value& a2 = _args[2]->value(ctx);
     switch (a2.type().major())
     {
@@ -60,6 +60,9 @@ Value& REPLACEExpression::value(Context & ctx) const
     default:
       throw RuntimeError(EXC_RT_FUNC_ARG_TYPE_S, KEYWORDS[oper]);
     }
+    /* nothing occurs as the empty string: the search would not advance */
+    if (a1.literal()->empty())
+      return handback(ctx, val);
     Literal * tmp = new Literal();
     size_t p = 0;
     while (p < val.literal()->size())
